@@ -64,7 +64,12 @@ def strategy(tier, config):
             return {'mode': mode, 'spec': sb['spec'], 'sing_end': sb['sing_end'], 'order': sb['order'], 'numpy': npc, 'tr': tr, 'tp': tp, 'ts': ts}
         if mode == 'arc':
             a = draw(gen.arc_center_form(max_ecc=30, scale_strategy=st.sampled_from([1e-2, 1.0, 1.0, 1e2])))
-            return {'mode': mode, 'spec': a['spec'], 'numpy': False, 'tr': tr, 'tp': tp, 'ts': ts}
+            spec = list(a['spec'])
+            if draw(st.integers(0, 3)) == 0:
+                # radii too small for the chord: the constructor enlarges them (everything derived must use the enlarged ones)
+                f = draw(st.sampled_from([0.5, 0.1, 0.9, 0.01]))
+                spec[2] = [spec[2][0] * f, spec[2][1] * f]
+            return {'mode': mode, 'spec': spec, 'numpy': False, 'tr': tr, 'tp': tp, 'ts': ts}
         if mode == 'line':
             b = draw(gen.bezier_spec(deg_strategy=st.just(1)))
             return {'mode': mode, 'spec': b['spec'], 'numpy': npc, 'tr': tr, 'tp': tp, 'ts': ts}
